@@ -1,45 +1,113 @@
-/- Helper lemmas for C19: `get_job` under the layout hypothesis; `init_project`. -/
+/- Helper lemmas for C19: `get_job` (complete-component matches only), with and without the
+   layout hypothesis; `init_project`. -/
 import Signac.Proofs.DiscLocate
 namespace Signac.Disc
 open Signac
 
-/-- the component contains a match of the id pattern -/
-def HasMatch (c : String) : Prop := (lastMatchEnd c).isSome = true
+/-- the component contains a match of the id pattern somewhere (`re.finditer` yields one) -/
+def HasMatch (c : String) : Prop := scan c.toList 0 0 ≠ []
 
 /-- the component is exactly an id: `idLen` characters of `[a-f0-9]` -/
 def IdLike (c : String) : Prop := c.toList.length = idLen ∧ ∀ ch ∈ c.toList, isIdChar ch = true
 
 theorem idLen_pos : 0 < idLen := by decide
 
-theorem scan_skip (cs : List Char) (pos k : Nat) (last : Option Nat) (h : cs.length ≤ k) :
-    scan cs pos k last = last := by
-  induction cs generalizing pos k with
+theorem isIdName_iff (c : String) : isIdName c = true ↔ IdLike c := by
+  simp [isIdName, IdLike]
+
+/-! ### the literal scan-and-filter agrees with `isIdName` -/
+
+theorem scan_start_ge (cs : List Char) (pos skip : Nat) : ∀ m ∈ scan cs pos skip, pos ≤ m.1 := by
+  induction cs generalizing pos skip with
   | nil => simp [scan]
   | cons c cs ih =>
-    cases k with
-    | zero => simp at h
+    cases skip with
     | succ k =>
       simp only [scan]
-      exact ih (pos + 1) k (by simpa using h)
+      intro m hm
+      have := ih (pos + 1) k m hm
+      omega
+    | zero =>
+      simp only [scan]
+      split
+      · intro m hm
+        rcases List.mem_cons.mp hm with rfl | hm
+        · exact Nat.le_refl _
+        · have := ih (pos + 1) (idLen - 1) m hm
+          omega
+      · intro m hm
+        have := ih (pos + 1) 0 m hm
+        omega
+
+/-- a match that does not start at the head of the component is filtered out -/
+theorem scan_filter_later (n : Nat) (cs : List Char) (pos skip : Nat) (h : 0 < pos) :
+    (scan cs pos skip).filter (isComplete n) = [] := by
+  rw [List.filter_eq_nil_iff]
+  intro m hm
+  have := scan_start_ge cs pos skip m hm
+  simp only [isComplete, Bool.and_eq_true, decide_eq_true_eq]
+  omega
+
+theorem matchAt_of_length {cs : List Char} (hl : cs.length = idLen) :
+    matchAt cs = cs.all isIdChar := by
+  unfold matchAt
+  rw [List.take_of_length_le (by omega)]
+  simp [hl]
+
+theorem matchAt_length {cs : List Char} (h : matchAt cs = true) : idLen ≤ cs.length := by
+  unfold matchAt at h
+  simp only [Bool.and_eq_true, decide_eq_true_eq, List.length_take] at h
+  omega
+
+/-- one component: a match passes the filter iff the whole component is an id, and then it ends
+    at `idLen` -/
+theorem lastCompleteEnd_eq (cs : List Char) :
+    lastCompleteEnd cs =
+      if (decide (cs.length = idLen) && cs.all isIdChar) = true then some idLen else none := by
+  unfold lastCompleteEnd
+  cases cs with
+  | nil =>
+    have : ¬ (0 = idLen) := by decide
+    simp [scan, this]
+  | cons x xs =>
+    simp only [scan]
+    by_cases hl : (x :: xs).length = idLen
+    · rw [← matchAt_of_length hl]
+      by_cases hm : matchAt (x :: xs) = true
+      · simp [hm, hl, isComplete, scan_filter_later]
+      · simp [hm, scan_filter_later]
+    · have hl' : ¬ (xs.length + 1 = idLen) := by simpa using hl
+      have hl'' : ¬ (idLen = xs.length + 1) := fun h => hl' h.symm
+      by_cases hm : matchAt (x :: xs) = true
+      · simp [hm, hl', hl'', isComplete, scan_filter_later]
+      · simp [hm, hl', scan_filter_later]
+
+theorem lastMatchEnd_eq (c : String) :
+    lastMatchEnd c = if isIdName c = true then some idLen else none := by
+  unfold lastMatchEnd isIdName
+  exact lastCompleteEnd_eq c.toList
+
+/-- a component has a complete match iff it is an id -/
+theorem lastMatchEnd_isSome (c : String) : (lastMatchEnd c).isSome = isIdName c := by
+  rw [lastMatchEnd_eq]; cases isIdName c <;> simp
 
 theorem idLike_lastMatchEnd {c : String} (h : IdLike c) : lastMatchEnd c = some idLen := by
+  rw [lastMatchEnd_eq, (isIdName_iff c).mpr h]; rfl
+
+/-- an id contains a match: the old (wider) notion covers the new one -/
+theorem idLike_hasMatch {c : String} (h : IdLike c) : HasMatch c := by
   obtain ⟨hl, hc⟩ := h
-  unfold lastMatchEnd
+  unfold HasMatch
   cases hcs : c.toList with
   | nil => rw [hcs] at hl; have := idLen_pos; simp at hl; omega
   | cons x xs =>
     rw [hcs] at hl hc
     have hm : matchAt (x :: xs) = true := by
-      unfold matchAt
-      rw [List.take_of_length_le (by omega)]
-      simp only [hl, decide_true, Bool.true_and, List.all_eq_true]
-      exact hc
-    simp only [scan, hm, if_true, Nat.zero_add]
-    apply scan_skip
-    simp at hl; omega
+      rw [matchAt_of_length hl, List.all_eq_true]; exact hc
+    simp [scan, hm]
 
-theorem idLike_hasMatch {c : String} (h : IdLike c) : HasMatch c := by
-  simp [HasMatch, idLike_lastMatchEnd h]
+theorem isIdName_hasMatch {c : String} (h : isIdName c = true) : HasMatch c :=
+  idLike_hasMatch ((isIdName_iff c).mp h)
 
 theorem idLike_cut {c : String} (h : IdLike c) : cutAt c idLen = c := by
   unfold cutAt
@@ -50,55 +118,85 @@ theorem idLike_matched {c : String} (h : IdLike c) : matchedId c idLen = c := by
   rw [List.take_of_length_le (by rw [h.1]; exact Nat.le_refl _), Nat.sub_self, List.drop_zero,
     String.ofList_toList]
 
-theorem lastJob_none (p : Path) : lastJob p = none ↔ ∀ c ∈ p, ¬ HasMatch c := by
+/-- The literal form of the model (scan every component with `re.finditer`, keep the complete
+    matches, take the last) is the simple one: the innermost component that is an id; the
+    matched id and the cut component are that component itself. -/
+theorem lastJob_eq_simple (p : Path) : lastJob p = lastJobSimple p := by
   induction p with
-  | nil => simp [lastJob]
+  | nil => rfl
   | cons c rest ih =>
-    simp only [lastJob, HasMatch]
-    cases h : lastMatchEnd c with
-    | some e => simp [h]
-    | none => simp [h, ih, HasMatch]
+    simp only [lastJob, lastJobSimple, lastMatchEnd_eq]
+    by_cases h : isIdName c = true
+    · have hid := (isIdName_iff c).mp h
+      simp [h, idLike_cut hid, idLike_matched hid]
+    · simp [h, ih]
 
-/-- The component chosen by `lastJob` is the innermost one containing a match: every
-    ancestor-or-self of `p` whose last component contains a match lies at or above it. -/
-theorem lastJob_spec (p : Path) (jid : String) (jp : Path) (h : lastJob p = some (jid, jp)) :
-    ∃ c rest e, (c :: rest) <:+ p ∧ lastMatchEnd c = some e ∧ jid = matchedId c e ∧
-      jp = cutAt c e :: rest ∧
-      ∀ h' tl, (h' :: tl) <:+ p → HasMatch h' → (h' :: tl) <:+ (c :: rest) := by
+theorem lastJob_none (p : Path) : lastJob p = none ↔ ∀ c ∈ p, isIdName c = false := by
+  rw [lastJob_eq_simple]
   induction p with
-  | nil => simp [lastJob] at h
+  | nil => simp [lastJobSimple]
+  | cons c rest ih =>
+    simp only [lastJobSimple]
+    by_cases h : isIdName c = true
+    · simp [h]
+    · simp [h, ih]
+
+/-- The component chosen by `lastJob` is the innermost one that is an id: it is returned as
+    it stands, with the path from there up, and every ancestor-or-self of `p` whose last
+    component is an id lies at or above it. -/
+theorem lastJob_spec (p : Path) (jid : String) (jp : Path) (h : lastJob p = some (jid, jp)) :
+    ∃ rest, jp = jid :: rest ∧ (jid :: rest) <:+ p ∧ isIdName jid = true ∧
+      ∀ h' tl, (h' :: tl) <:+ p → isIdName h' = true → (h' :: tl) <:+ (jid :: rest) := by
+  rw [lastJob_eq_simple] at h
+  induction p with
+  | nil => simp [lastJobSimple] at h
   | cons x xs ih =>
-    simp only [lastJob] at h
-    cases hm : lastMatchEnd x with
-    | some e =>
-      rw [hm] at h
-      simp only [Option.some.injEq, Prod.mk.injEq] at h
-      exact ⟨x, xs, e, List.suffix_refl _, hm, h.1.symm, h.2.symm, fun _ _ hs _ => hs⟩
-    | none =>
-      rw [hm] at h
-      obtain ⟨c, rest, e, hs, he, hj, hp, hmax⟩ := ih h
-      refine ⟨c, rest, e, List.suffix_cons_iff.mpr (Or.inr hs), he, hj, hp, ?_⟩
+    simp only [lastJobSimple] at h
+    by_cases hm : isIdName x = true
+    · simp only [hm, if_true, Option.some.injEq, Prod.mk.injEq] at h
+      obtain ⟨rfl, rfl⟩ := h
+      exact ⟨xs, rfl, List.suffix_refl _, hm, fun _ _ hs _ => hs⟩
+    · simp only [hm] at h
+      obtain ⟨rest, hp, hs, hid, hmax⟩ := ih h
+      refine ⟨rest, hp, List.suffix_cons_iff.mpr (Or.inr hs), hid, ?_⟩
       intro h' tl hs' hh
       rcases List.suffix_cons_iff.mp hs' with heq | hs''
       · cases heq
-        simp [HasMatch, hm] at hh
+        exact absurd hh hm
       · exact hmax h' tl hs'' hh
 
-/-- Layout hypothesis of C19: a name containing an id match occurs, among existing paths,
-    only as a directory named exactly by an id, directly inside the `workspace` directory of
-    a project, and that `workspace` directory is not itself a project; and every existing path
-    sits in a directory. -/
+/-- Layout hypothesis of C19, old (strict) form: a name CONTAINING an id match occurs, among
+    existing paths, only as a directory named exactly by an id, directly inside the
+    `workspace` directory of a project, and that `workspace` directory is not itself a project;
+    and every existing path sits in a directory. -/
 structure Layout (t : Tree) : Prop where
   idlike : ∀ c rest, t.kind (c :: rest) ≠ .absent → HasMatch c →
     t.kind (c :: rest) = .dir ∧ IdLike c ∧
       ∃ q, rest = "workspace" :: q ∧ isProject t q = true ∧ isProject t rest = false
   closed : ∀ c rest, t.kind (c :: rest) ≠ .absent → t.kind rest = .dir
 
+/-- Layout hypothesis of C19, weak form: only names that ARE ids matter.  A directory whose
+    name is an id sits directly inside the `workspace` directory of a project, and that
+    `workspace` directory is not itself a project; an existing path whose name is an id is a
+    directory; and every existing path sits in a directory.  Names that merely contain an
+    id-like run are unconstrained. -/
+structure LayoutW (t : Tree) : Prop where
+  idname : ∀ c rest, t.kind (c :: rest) = .dir → isIdName c = true →
+    ∃ q, rest = "workspace" :: q ∧ isProject t q = true ∧ isProject t rest = false
+  iddir : ∀ c rest, t.kind (c :: rest) ≠ .absent → isIdName c = true → t.kind (c :: rest) = .dir
+  closed : ∀ c rest, t.kind (c :: rest) ≠ .absent → t.kind rest = .dir
+
+theorem Layout.toW {t : Tree} (L : Layout t) : LayoutW t where
+  idname := fun c rest hd hid =>
+    (L.idlike c rest (by rw [hd]; intro h; cases h) (isIdName_hasMatch hid)).2.2
+  iddir := fun c rest hk hid => (L.idlike c rest hk (isIdName_hasMatch hid)).1
+  closed := L.closed
+
 /-- `d` is the directory of job `j` of the project at `q`. -/
 def IsJobDir (t : Tree) (d : Path) : Prop :=
   ∃ j q, d = j :: "workspace" :: q ∧ IdLike j ∧ isProject t q = true ∧ t.kind d = .dir
 
-theorem Layout.exists_up {t : Tree} (L : Layout t) {p r : Path} (hp : t.kind p ≠ .absent)
+theorem LayoutW.exists_up {t : Tree} (L : LayoutW t) {p r : Path} (hp : t.kind p ≠ .absent)
     (hr : r <:+ p) : t.kind r ≠ .absent := by
   induction p with
   | nil =>
@@ -153,73 +251,69 @@ theorem getJob_ok_iff_aux (t : Tree) (p : Path) (j : String) (q : Path) :
           cases h1
           exact absurd h2 hd
 
-theorem getJob_innermost_aux (t : Tree) (L : Layout t) (p : Path) (j : String) (q : Path) :
+/-- `get_job` without any layout hypothesis: the returned id is the innermost component of `p`
+    that is an id, the path from that component up is a directory, and the project is the
+    nearest one strictly above it (and passes the gate). -/
+theorem getJob_ok_iff_simple (t : Tree) (p : Path) (j : String) (q : Path) :
+    (getJob t p).1 = .ok (j, q) ↔
+      t.kind p ≠ .absent ∧ ∃ rest, (j :: rest) <:+ p ∧ isIdName j = true ∧
+        (∀ h' tl, (h' :: tl) <:+ p → isIdName h' = true → (h' :: tl) <:+ (j :: rest)) ∧
+        t.kind (j :: rest) = .dir ∧ Nearest t rest q ∧ GateOk t q := by
+  rw [getJob_ok_iff_aux]
+  constructor
+  · intro ⟨hk, jp, hl, hd, hg⟩
+    obtain ⟨rest, rfl, hs, hid, hmax⟩ := lastJob_spec p j jp hl
+    simp only [List.tail_cons] at hg
+    have hn := (getProjectFrom_ok_iff t rest q).mp hg
+    exact ⟨hk, rest, hs, hid, hmax, hd, hn.1, hn.2⟩
+  · intro ⟨hk, rest, hs, hid, hmax, hd, hn, hg⟩
+    refine ⟨hk, j :: rest, ?_, hd, ?_⟩
+    · cases hl : lastJob p with
+      | none =>
+        have := (lastJob_none p).mp hl j (hs.mem (List.mem_cons_self ..))
+        rw [hid] at this; cases this
+      | some pr =>
+        obtain ⟨jid, jp⟩ := pr
+        obtain ⟨rest', rfl, hs', hid', hmax'⟩ := lastJob_spec p jid _ hl
+        have heq := suffix_antisymm (hmax' j rest hs hid) (hmax jid rest' hs' hid')
+        cases heq; rfl
+    · simp only [List.tail_cons]
+      exact (getProjectFrom_ok_iff t rest q).mpr ⟨hn, hg⟩
+
+theorem getJob_innermost_aux (t : Tree) (L : LayoutW t) (p : Path) (j : String) (q : Path) :
     (getJob t p).1 = .ok (j, q) ↔
       t.kind p ≠ .absent ∧ GateOk t q ∧ IsJobDir t (j :: "workspace" :: q) ∧
         (j :: "workspace" :: q) <:+ p ∧
         ∀ d, IsJobDir t d → d <:+ p → d <:+ (j :: "workspace" :: q) := by
-  rw [getJob_ok_iff_aux]
+  rw [getJob_ok_iff_simple]
   constructor
-  · intro ⟨hk, jp, hl, hd, hg⟩
-    obtain ⟨c, rest, e, hs, he, hj, hjp, hmax⟩ := lastJob_spec p j jp hl
-    have hex : t.kind (c :: rest) ≠ .absent := L.exists_up hk hs
-    have hm : HasMatch c := by simp [HasMatch, he]
-    obtain ⟨hdir, hid, q', hrest, hpq', hnp⟩ := L.idlike c rest hex hm
-    have he' : e = idLen := by
-      have := idLike_lastMatchEnd hid
-      rw [he] at this; cases this; rfl
-    subst he'
-    rw [idLike_cut hid] at hjp
-    rw [idLike_matched hid] at hj
-    subst hj hjp
-    simp only [List.tail_cons] at hg
-    have hn := ((getProjectFrom_ok_iff t rest q).mp hg)
+  · intro ⟨hk, rest, hs, hid, hmax, hdir, hn, hg⟩
+    obtain ⟨q', hrest, hpq', hnp⟩ := L.idname j rest hdir hid
     -- the project found from `workspace :: q'` is `q'`
     have hq : q = q' := by
-      have h1 : findProject t rest = some q := (findProject_nearest t rest q).mpr hn.1
+      have h1 : findProject t rest = some q := (findProject_nearest t rest q).mpr hn
       rw [hrest, findProject_skip (by rw [← hrest]; exact hnp), findProject_self hpq'] at h1
       cases h1; rfl
     subst hq
     subst hrest
-    refine ⟨hk, hn.2, ⟨j, q, rfl, hid, hpq', hdir⟩, hs, ?_⟩
+    refine ⟨hk, hg, ⟨j, q, rfl, (isIdName_iff j).mp hid, hpq', hdir⟩, hs, ?_⟩
     intro d hdj hds
     obtain ⟨j', q'', rfl, hid', _, _⟩ := hdj
-    exact hmax j' _ hds (idLike_hasMatch hid')
+    exact hmax j' _ hds ((isIdName_iff j').mpr hid')
   · intro ⟨hk, hg, hjd, hs, hmax⟩
     obtain ⟨j0, q0, heq, hid, hpq, hdir⟩ := hjd
     cases heq
-    have hne : lastJob p ≠ none := by
-      intro hnone
-      have := (lastJob_none p).mp hnone j (hs.mem (List.mem_cons_self ..))
-      exact this (idLike_hasMatch hid)
-    cases hl : lastJob p with
-    | none => exact absurd hl hne
-    | some pr =>
-      obtain ⟨jid, jp⟩ := pr
-      obtain ⟨c, rest, e, hs', he, hj, hjp, hmax'⟩ := lastJob_spec p jid jp hl
-      have hex : t.kind (c :: rest) ≠ .absent := L.exists_up hk hs'
-      have hm : HasMatch c := by simp [HasMatch, he]
-      obtain ⟨hdir', hid', q', hrest, hpq', hnp⟩ := L.idlike c rest hex hm
-      have he' : e = idLen := by
-        have := idLike_lastMatchEnd hid'
-        rw [he] at this; cases this; rfl
-      subst he'
-      rw [idLike_cut hid'] at hjp
-      rw [idLike_matched hid'] at hj
-      subst hj hjp
-      -- both are job directories above p, each is at or above the other
-      have h1 : (j :: "workspace" :: q) <:+ (jid :: rest) := hmax' j _ hs (idLike_hasMatch hid)
-      have h2 : (jid :: rest) <:+ (j :: "workspace" :: q) :=
-        hmax (jid :: rest) ⟨jid, q', by rw [hrest], hid', hpq', hdir'⟩ hs'
-      have heq := suffix_antisymm h1 h2
-      cases heq
-      refine ⟨hk, _, rfl, hdir, ?_⟩
-      simp only [List.tail_cons]
-      rw [getProjectFrom_ok_iff]
-      refine ⟨?_, hg⟩
-      rw [← findProject_nearest]
-      cases hrest
-      rw [findProject_skip hnp, findProject_self hpq]
+    have hnp : isProject t ("workspace" :: q) = false := by
+      obtain ⟨q', hrest, _, hnp⟩ := L.idname j _ hdir ((isIdName_iff j).mpr hid)
+      exact hnp
+    refine ⟨hk, "workspace" :: q, hs, (isIdName_iff j).mpr hid, ?_, hdir, ?_, hg⟩
+    · intro h' tl hs' hid'
+      -- an id-named path at or above an existing path is a job directory
+      have hex : t.kind (h' :: tl) ≠ .absent := L.exists_up hk hs'
+      have hdir' := L.iddir h' tl hex hid'
+      obtain ⟨q', hrest, hpq', _⟩ := L.idname h' tl hdir' hid'
+      exact hmax (h' :: tl) ⟨h', q', by rw [hrest], (isIdName_iff h').mp hid', hpq', hdir'⟩ hs'
+    · rw [← findProject_nearest, findProject_skip hnp, findProject_self hpq]
 
 /-! ### init_project -/
 
@@ -331,64 +425,132 @@ theorem initProject_fresh_aux (t : Tree) (p : Path) (hp : isProject t p = false)
   rw [hgp]
   simp only [hold, hopen, List.append_assoc]
 
-/-! ### a decidable sufficient condition for `Layout` on listed trees (non-vacuity examples) -/
+/-! ### decidable sufficient conditions for `Layout` / `LayoutW` on listed trees (non-vacuity examples) -/
 
-def idLikeB (c : String) : Bool := decide (c.toList.length = idLen) && c.toList.all isIdChar
+def hasMatchB (c : String) : Bool := !(scan c.toList 0 0).isEmpty
 
-theorem idLikeB_iff (c : String) : idLikeB c = true ↔ IdLike c := by
-  simp [idLikeB, IdLike]
+theorem hasMatchB_iff (c : String) : hasMatchB c = true ↔ HasMatch c := by
+  simp [hasMatchB, HasMatch]
+
+/-- a condition checked at every listed, existing node holds at every existing path -/
+theorem ofNodes_forall (ns : List Node) (f : Path → Bool)
+    (h : ns.all (fun n => decide (n.kind = .absent) || f n.path) = true) :
+    ∀ p, (Tree.ofNodes ns).kind p ≠ .absent → f p = true := by
+  intro p hk
+  simp only [Tree.ofNodes] at hk
+  cases hf : findNode ns p with
+  | none => rw [hf] at hk; exact absurd rfl hk
+  | some n =>
+    rw [hf] at hk
+    simp only [] at hk
+    unfold findNode at hf
+    have hmem := List.mem_of_find?_eq_some hf
+    have hpath := List.find?_some hf
+    simp only [decide_eq_true_eq] at hpath
+    have := (List.all_eq_true.mp h) n hmem
+    simp only [Bool.or_eq_true, decide_eq_true_eq] at this
+    rcases this with h1 | h1
+    · exact absurd h1 hk
+    · rw [hpath] at h1; exact h1
+
+def inWorkspace (t : Tree) (rest : Path) : Bool :=
+  match rest with
+  | w :: q => decide (w = "workspace") && isProject t q && !isProject t rest
+  | [] => false
+
+theorem inWorkspace_spec {t : Tree} {rest : Path} (h : inWorkspace t rest = true) :
+    ∃ q, rest = "workspace" :: q ∧ isProject t q = true ∧ isProject t rest = false := by
+  cases rest with
+  | nil => simp [inWorkspace] at h
+  | cons w q =>
+    simp only [inWorkspace, Bool.and_eq_true, decide_eq_true_eq, Bool.not_eq_true'] at h
+    obtain ⟨⟨hw, hp⟩, hn⟩ := h
+    exact ⟨q, by rw [hw], hp, hn⟩
 
 def nodeOk (t : Tree) : Path → Bool
   | [] => true
   | c :: rest =>
     decide (t.kind rest = .dir) &&
-      (if (lastMatchEnd c).isSome then
-        decide (t.kind (c :: rest) = .dir) && idLikeB c &&
-          (match rest with
-           | w :: q => decide (w = "workspace") && isProject t q && !isProject t rest
-           | [] => false)
+      (if hasMatchB c then
+        decide (t.kind (c :: rest) = .dir) && isIdName c && inWorkspace t rest
       else true)
 
 def layoutCheck (ns : List Node) : Bool :=
   ns.all (fun n => decide (n.kind = .absent) || nodeOk (Tree.ofNodes ns) n.path)
 
 theorem layout_of_check (ns : List Node) (h : layoutCheck ns = true) : Layout (Tree.ofNodes ns) := by
-  have key : ∀ c rest, (Tree.ofNodes ns).kind (c :: rest) ≠ .absent →
-      nodeOk (Tree.ofNodes ns) (c :: rest) = true := by
-    intro c rest hk
-    simp only [Tree.ofNodes] at hk
-    cases hf : findNode ns (c :: rest) with
-    | none => rw [hf] at hk; exact absurd rfl hk
-    | some n =>
-      rw [hf] at hk
-      simp only [] at hk
-      unfold findNode at hf
-      have hmem := List.mem_of_find?_eq_some hf
-      have hpath := List.find?_some hf
-      simp only [decide_eq_true_eq] at hpath
-      have := (List.all_eq_true.mp h) n hmem
-      simp only [Bool.or_eq_true, decide_eq_true_eq] at this
-      rcases this with h1 | h1
-      · exact absurd h1 hk
-      · rw [hpath] at h1; exact h1
+  have key := ofNodes_forall ns (nodeOk (Tree.ofNodes ns)) h
   constructor
   · intro c rest hk hm
-    have := key c rest hk
+    have := key (c :: rest) hk
     simp only [nodeOk, Bool.and_eq_true, decide_eq_true_eq] at this
     obtain ⟨_, h2⟩ := this
-    have hm' : (lastMatchEnd c).isSome = true := hm
+    have hm' : hasMatchB c = true := (hasMatchB_iff c).mpr hm
     simp only [hm', if_true, Bool.and_eq_true, decide_eq_true_eq] at h2
     obtain ⟨⟨hd, hid⟩, h3⟩ := h2
-    refine ⟨hd, (idLikeB_iff c).mp hid, ?_⟩
-    cases rest with
-    | nil => simp at h3
-    | cons w q =>
-      simp only [Bool.and_eq_true, decide_eq_true_eq, Bool.not_eq_true'] at h3
-      obtain ⟨⟨hw, hp⟩, hn⟩ := h3
-      exact ⟨q, by rw [hw], hp, hn⟩
+    exact ⟨hd, (isIdName_iff c).mp hid, inWorkspace_spec h3⟩
   · intro c rest hk
-    have := key c rest hk
+    have := key (c :: rest) hk
     simp only [nodeOk, Bool.and_eq_true, decide_eq_true_eq] at this
+    exact this.1
+
+def nodeOkW (t : Tree) : Path → Bool
+  | [] => true
+  | c :: rest =>
+    decide (t.kind rest = .dir) &&
+      (if isIdName c then decide (t.kind (c :: rest) = .dir) && inWorkspace t rest else true)
+
+def layoutCheckW (ns : List Node) : Bool :=
+  ns.all (fun n => decide (n.kind = .absent) || nodeOkW (Tree.ofNodes ns) n.path)
+
+theorem layoutW_of_check (ns : List Node) (h : layoutCheckW ns = true) :
+    LayoutW (Tree.ofNodes ns) := by
+  have key := ofNodes_forall ns (nodeOkW (Tree.ofNodes ns)) h
+  have key' : ∀ c rest, (Tree.ofNodes ns).kind (c :: rest) ≠ .absent → isIdName c = true →
+      (Tree.ofNodes ns).kind (c :: rest) = .dir ∧ inWorkspace (Tree.ofNodes ns) rest = true := by
+    intro c rest hk hid
+    have := key (c :: rest) hk
+    simp only [nodeOkW, Bool.and_eq_true, decide_eq_true_eq, hid, if_true] at this
+    exact this.2
+  refine ⟨?_, ?_, ?_⟩
+  · intro c rest hd hid
+    exact inWorkspace_spec (key' c rest (by rw [hd]; intro h; cases h) hid).2
+  · intro c rest hk hid
+    exact (key' c rest hk hid).1
+  · intro c rest hk
+    have := key (c :: rest) hk
+    simp only [nodeOkW, Bool.and_eq_true, decide_eq_true_eq] at this
+    exact this.1
+
+/-- The weak hypothesis WITHOUT its second clause: only id-named DIRECTORIES are constrained
+    (used to show that the clause about id-named non-directories is needed). -/
+structure LayoutDirOnly (t : Tree) : Prop where
+  idname : ∀ c rest, t.kind (c :: rest) = .dir → isIdName c = true →
+    ∃ q, rest = "workspace" :: q ∧ isProject t q = true ∧ isProject t rest = false
+  closed : ∀ c rest, t.kind (c :: rest) ≠ .absent → t.kind rest = .dir
+
+theorem LayoutW.toDirOnly {t : Tree} (L : LayoutW t) : LayoutDirOnly t := ⟨L.idname, L.closed⟩
+
+def nodeOkD (t : Tree) : Path → Bool
+  | [] => true
+  | c :: rest =>
+    decide (t.kind rest = .dir) &&
+      (if isIdName c && decide (t.kind (c :: rest) = .dir) then inWorkspace t rest else true)
+
+def layoutCheckD (ns : List Node) : Bool :=
+  ns.all (fun n => decide (n.kind = .absent) || nodeOkD (Tree.ofNodes ns) n.path)
+
+theorem layoutDirOnly_of_check (ns : List Node) (h : layoutCheckD ns = true) :
+    LayoutDirOnly (Tree.ofNodes ns) := by
+  have key := ofNodes_forall ns (nodeOkD (Tree.ofNodes ns)) h
+  refine ⟨?_, ?_⟩
+  · intro c rest hd hid
+    have := key (c :: rest) (by rw [hd]; intro h; cases h)
+    simp only [nodeOkD, Bool.and_eq_true, decide_eq_true_eq, hid, hd] at this
+    exact inWorkspace_spec this.2
+  · intro c rest hk
+    have := key (c :: rest) hk
+    simp only [nodeOkD, Bool.and_eq_true, decide_eq_true_eq] at this
     exact this.1
 
 end Signac.Disc
